@@ -105,8 +105,8 @@ theorem self_miter_ok {sc : Circuit} {ord : Ord} (hord : OrdOK ord) (hc : LintCl
       · intro n; rw [pref_c1]; exact k3 n
     · intro e _ t ht
       rcases ht with ht | ht <;> exact hnobb e t ht
-  obtain ⟨m0, h0⟩ := miter_ok_pref ord H hb hb hne hsp hep
-  exact ⟨m0, _, _, h0, mview_of_ok hc hc hb hb hne hsp hep h0⟩
+  obtain ⟨m0, h0⟩ := miter_ok_pref ord H hb hb hne
+  exact ⟨m0, _, _, h0, mview_of_ok hc hc hb hb hne h0⟩
 
 /-- the three edits on top of the self-miter succeed -/
 theorem edits_ok {sc m0 : Circuit} {sp ep : List Name} (V : MView sc sc sp ep m0) (hc : LintClean sc)
